@@ -215,7 +215,7 @@ M("kwn-volfrac-clip", KE, "            Y.volFrac[0,p] = np.amin([volRatio * prec
   ["C03:wellformed", "C02:toy_binary"], ["volfrac_range", "total_fraction_above_one", "volfrac_not_third_moment"], "volume fraction 1.5x and unclipped")
 M("kwn-composition-floor", KE, "            Y.composition[0,Y.composition[0] < 0] = self.constraints.minComposition", "            Y.composition[0] = Y.composition[0] - (np.sum(Y.volFrac[0]) > 0.01) * 1.0",
   ["C03:wellformed"], ["composition_range"], "matrix composition drops below zero once 1 % has precipitated")
-M("kwn-psd-negative", KE, "            x[p][self.PBM[p].PSDsize < self.constraints.minRadius] = 0", "            x[p][self.PBM[p].PSDsize < self.constraints.minRadius] = 0\n            if len(x[p]) > 12:\n                x[p][11] -= 2.0",
+M("kwn-psd-negative", KE, "            x[p][x[p] < 0] = 0", "            x[p][x[p] < 0] = 0\n            if len(x[p]) > 12:\n                x[p][11] -= 2.0",
   ["C03:wellformed"], ["psd_negative"], "two particles removed from class 11 at every evaluation")
 M("kwn-ravg-sign", KE, "            Y.Ravg[0,p] = self.PBM[p].MomentFromN(x[p], 1) / Y.precipitateDensity[0,p]", "            Y.Ravg[0,p] = -self.PBM[p].MomentFromN(x[p], 1) / Y.precipitateDensity[0,p]",
   ["C03:wellformed", "C02:toy_binary"], ["negative_Ravg", "radius_not_moment_ratio"], "mean radius with the wrong sign")
